@@ -4,6 +4,8 @@ LEVEL = "proof"
 CONTRACT_MODULES = ["contracts.sorting", "contracts.refcount", "contracts.tasks", "contracts.tasks_proto"]
 FUNCTIONS = ["Manager.run_tasks", "Manager.set_value", "ExprTask.run", "ExprTask.__init__",
              "Manager.find_taskids", "Manager.find_tasks", "Manager.register", "Manager.unregister"]
+# the only expression nodes with an exception handler of their own: it may catch the node's OWN ZeroDivisionError only (C04)
+BORROW = [('C04', ['TruedivExpr._get_value', 'FloordivExpr._get_value', 'ModExpr._get_value'])]
 RAC = "rac/c18.py"
 RAC_BUDGET = {"quick": 60, "thorough": 900}
 RAC_MIN = {"quick": 4038, "thorough": 4038}      # fewer run-time evaluations than this = the harness skipped its work: checker broken, not "held"
